@@ -303,6 +303,15 @@ func c31BuildEnv(s c31Src, v uint64) *c31Env {
 
 	sigCost := []uint64{25000, 2000, 300, 20000}[s.N(4)]
 	appCost := []int{700, 20000, 100}[s.N(3)]
+	if e.trace {
+		// ep.Trace (dryrun/debug only) renders the whole top of the stack after every step: with a 100k-step budget and
+		// 4 KiB values that is ~1 GB of text per case. Keep traced runs short.
+		sigCost, appCost = 2000, 700
+		if e.n > 2 {
+			e.n = 2
+			e.gi = e.gi % 2
+		}
+	}
 	poolApp, poolSig, poolInner := !c31Pct(s, 15), !c31Pct(s, 15), !c31Pct(s, 15)
 	isolate := c31Pct(s, 30)
 	e.proto = makeTestProto(protoVer(e.pv), func(p *config.ConsensusParams) {
